@@ -102,6 +102,7 @@ func c06(maxN int, fdBound uintptr, part int) {
 	}
 	if execFile != nil {
 		sym.Reach("execfile")
+		sym.Assert(c.ExecAtEmptyPath && c.ExecFile == execFile, "the program image must be the caller's executable descriptor (not a scratch copy of something else)")
 	}
 	// the caller's configuration is untouched
 	sym.Assert(r.ExecFile == before.ExecFile && r.CgroupFd == before.CgroupFd && len(r.Files) == len(before.Files),
